@@ -307,18 +307,25 @@ class Structured(list):
     alternating bits, small multipliers).  Used as `vals`: not the full product is enumerated but every structured value
     against a companion set (itself, its negative, its neighbours, small numbers, the range boundaries)."""
 
-    def __init__(self, n):
+    def __init__(self, n, full=False):
         pts = {3, 5, 6, 7, 10, 12, 13, 100, 255, 256, 257, 512, 768, 1000, 1024}
+        ones = set()
         for k in range(1, n):
-            pts |= {2 ** k, 2 ** k - 1}
+            pts.add(2 ** k)
+            ones.add(2 ** k - 1)
         pts |= {sum(1 << i for i in range(0, n - 1, 2)), sum(1 << i for i in range(1, n - 1, 2)), 3 << (n - 3), 2 ** (n - 1) - 256}
         pts = sorted(x for x in pts if 0 < x < 2 ** n)
-        super().__init__(sorted({-x for x in pts} | set(pts)))
+        ones = sorted(x for x in ones if 0 < x < 2 ** n and x not in pts)
+        neg_ones = ones if full else ones[:: 4]
+        super().__init__(sorted({-x for x in pts} | set(pts) | set(ones) | {-x for x in neg_ones}))
         self.n = n
+        self.full = full
 
     def companions(self, v):
         n = self.n
-        c = {v, -v, v + 1, v - 1, 0, 1, 2, 3, 7, 10, 12, 256, -1, -3, 2 ** (n - 1) - 1, -(2 ** (n - 1)), v // 2, 2 * v}
+        c = {v, -v, v + 1, 0, 1, 2, 3, 10, 256, -1, 2 ** (n - 1) - 1, v // 2}
+        if self.full:
+            c |= {v - 1, 7, 12, -3, -(2 ** (n - 1)), 2 * v}
         return sorted(c)
 
 
